@@ -1,5 +1,8 @@
-from harness import gens, implrun
+from harness import gens, implrun, scen
 from harness.props import rowgen
+from harness.scen import call, LOOK_TO, GO, THATS_ALL, ROUNDS, BOB, SINGLE
+
+_WORLD = scen.WorldProp()
 
 
 class C05(rowgen.RowGenProp):
@@ -31,11 +34,85 @@ class C05(rowgen.RowGenProp):
             c1 = rowgen.gen_case(rng, spec, rng.randint(1, 60), call_p=0.25)
             c2 = rowgen.gen_case(rng, spec, rng.randint(1, 40), call_p=0.15)
             yield {"k": "gen", "gen": spec, "ops": c1["ops"] + "r" + c2["ops"]}
+        yield from self.world_cases(rng, 40 if tier == "quick" else 400)
+
+    def world_cases(self, rng, n):
+        # the same through the Bot: the method is started a second time in one session - by a second Go
+        # after That's all / Rounds - and must begin as a freshly launched Wheatley would
+        for i in range(n):
+            N = rng.choice([4, 5, 6, 8])
+            stage = rng.choice([N, N - 1]) if N > 4 else N
+            spec = gens.rand_pn_spec(rng, stage=stage, calls=True, start_row_p=0.0)
+            spec["start_index"] = rng.choice([0, 0, 1, -1, 2])
+            ps = 60
+            I = scen.interval(ps, N)
+            row_t = I * (N + 0.5)
+            t0 = 1000.3 + rng.random()
+            go1 = t0 + 3 + rng.uniform(0.2, 1.8) * row_t
+            k1 = rng.uniform(3, 9)
+            back = go1 + (k1 + 2) * row_t
+            go2 = back + rng.uniform(3.2, 6) * row_t
+            events = [call(t0, LOOK_TO), call(go1, GO), call(back, rng.choice([THATS_ALL, ROUNDS])), call(go2, GO)]
+            for _ in range(rng.choice([0, 1, 2])):
+                events.append(call(rng.uniform(go1, back), rng.choice([BOB, SINGLE])))
+            events.sort(key=lambda e: e[0])
+            sc = {"start": 1000.0, "end": go2 + 9 * row_t, "tower_size": N, "events": events,
+                  "bot": scen.bot_cfg(spec), "rhythm": scen.rhythm_cfg("regression", inertia=1.0, peal_speed=ps)}
+            yield {"k": "world", "scenario": sc, "go2": go2, "t0": t0}
+
+    def impl(self, req):
+        if req["k"] == "world":
+            return scen.WorldProp.impl(_WORLD, req)
+        return super().impl(req)
+
+    def to_model(self, req):
+        if req["k"] == "world":
+            return req.pop("_model_req", None)
+        return super().to_model(req)
+
+    def compare(self, req, ir, mr):
+        if req["k"] == "world":
+            return scen.WorldProp.compare(_WORLD, req, ir, mr)
+        return super().compare(req, ir, mr)
+
+    def tag(self, req, reply):
+        if req["k"] == "world":
+            return "bot:second-go"
+        return super().tag(req, reply)
+
+    def oracle_world(self, req, reply):
+        sc = req["scenario"]
+        if reply["crashed"] or reply["handler_crashes"]:
+            return f"crash: main={reply['crashed']} handlers={reply['handler_crashes']}"
+        N = sc["tower_size"]
+        spec = sc["bot"]["gen"]
+        rows = scen.rows_from_strikes(reply, N)
+        strikes = reply["strikes"]
+        k = sum(1 for (t, _, _) in strikes if scen.b2f(t) < req["go2"]) // N
+        if k >= len(rows) or rows[k] != rows[0]:
+            return None      # the second Go did not arrive during rounds: nothing to judge
+        hand_start = (spec.get("start_index") or 0) % 2 == 0
+        m = k + 1
+        while (m % 2 == 0) != hand_start:
+            m += 1
+        ast = [(p, c) for p, c in spec["_ast"]]
+        fresh = gens.ref_rows(spec["stage"], gens.denote(ast), list(range(1, spec["stage"] + 1)),
+                              spec.get("start_index") or 0, 30)
+        covers = list(range(spec["stage"] + 1, N + 1))
+        for j in range(len(rows) - m):
+            if rows[m + j] != fresh[j] + covers:
+                return (f"second start of the method (row {m}): row {j} is {rows[m + j]}, a freshly launched Wheatley "
+                        f"rings {fresh[j] + covers}")
+        return None
 
     def nontrivial(self, req, reply):
+        if req["k"] == "world":
+            return len(scen.rings(reply)) > 8
         return "err" not in reply and "r" in req["ops"] and len(req["ops"].split("r")[0]) > 0
 
     def oracle(self, req, reply):
+        if req["k"] == "world":
+            return self.oracle_world(req, reply)
         if req["k"] != "gen" or "err" in reply or "r" not in req["ops"]:
             return None
         ops1, ops2 = req["ops"].split("r", 1)
